@@ -653,3 +653,100 @@ func TestC13SwarmCancel(t *testing.T) {
 		}
 	})
 }
+
+// TestC13QueueStampede: many receivers enter Receive at the same instant for fewer messages than
+// receivers. Whoever loses the race for a message must still be released by its context.
+func TestC13QueueStampede(t *testing.T) {
+	const sub = "C13.queue_stampede"
+	ev.Rule(sub, "rapid: 100-600 rounds per case on one bounded queue; in every round 0-2 messages are queued, 2-8 receivers are released from a spin barrier into Receive at the same instant (GOMAXPROCS 2-16) and their shared context is cancelled 0-200 us later. Oracle: every Receive returns within 500 ms of the cancel (patient limit), a Receive that returns nil ran exactly one callback, every queued message is handed to exactly one callback or is still queued, no callback runs for a message that was not queued. non-trivial = receivers > messages; distinct by parameters")
+	rapid.Check(t, func(t *rapid.T) {
+		c13CaseStart = time.Now()
+		rounds := rapid.IntRange(100, 600).Draw(t, "rounds")
+		nRecv := rapid.IntRange(2, 8).Draw(t, "receivers")
+		procs := rapid.SampledFrom([]int{2, 4, 16}).Draw(t, "gomaxprocs")
+		maxMsgs := rapid.IntRange(0, 2).Draw(t, "messagesPerRound")
+		cancelMicros := rapid.SampledFrom([]int{0, 20, 200}).Draw(t, "cancelAfterMicros")
+		desc := fmt.Sprintf("rounds=%d receivers=%d procs=%d messages<=%d cancelAfter=%dus", rounds, nRecv, procs, maxMsgs, cancelMicros)
+		old := runtime.GOMAXPROCS(procs)
+		defer runtime.GOMAXPROCS(old)
+		q := swarmutil.NewQueue[addr](4, 64)
+		defer q.Close()
+		next := 0
+		for r := 0; r < rounds; r++ {
+			k := 0
+			if maxMsgs > 0 {
+				k = (r*7 + 1) % (maxMsgs + 1)
+			}
+			ids := map[int]bool{}
+			for i := 0; i < k; i++ {
+				next++
+				if q.Deliver(p2p.Message[addr]{Src: addr{N: next}, Dst: addr{N: 0}, Payload: []byte(fmt.Sprintf("payload-%d", next))}) {
+					ids[next] = true
+				}
+			}
+			ctx, cancel := context.WithCancel(context.Background())
+			var gate atomic.Bool
+			var mu sync.Mutex
+			got := map[int]int{}
+			var bad []string
+			done := make(chan struct{}, nRecv)
+			for i := 0; i < nRecv; i++ {
+				go func() {
+					for !gate.Load() {
+					}
+					ran := 0
+					err := q.Receive(ctx, func(m p2p.Message[addr]) {
+						ran++
+						mu.Lock()
+						got[m.Src.N]++
+						if string(m.Payload) != fmt.Sprintf("payload-%d", m.Src.N) {
+							bad = append(bad, fmt.Sprintf("message %d arrived as %q", m.Src.N, m.Payload))
+						}
+						mu.Unlock()
+					})
+					if (err == nil) != (ran == 1) || ran > 1 {
+						mu.Lock()
+						bad = append(bad, fmt.Sprintf("a Receive call returned %v after running %d callbacks", err, ran))
+						mu.Unlock()
+					}
+					done <- struct{}{}
+				}()
+			}
+			gate.Store(true)
+			if cancelMicros > 0 {
+				time.Sleep(time.Duration(cancelMicros) * time.Microsecond)
+			}
+			cancel()
+			for i := 0; i < nRecv; i++ {
+				if _, ok := ev.PatientRecv(promptness, done); !ok {
+					t.Fatalf("round %d: %d of %d receivers had not returned %v after their context was cancelled (%d messages were queued)\ncase: %s", r, nRecv-i, nRecv, promptness, k, desc)
+				}
+			}
+			mu.Lock()
+			for id, c := range got {
+				if !ids[id] {
+					bad = append(bad, fmt.Sprintf("a callback ran for message %d which was not queued in this round", id))
+				}
+				if c > 1 {
+					bad = append(bad, fmt.Sprintf("message %d was handed to %d callbacks", id, c))
+				}
+			}
+			left := q.Len()
+			if len(got)+left != len(ids) {
+				bad = append(bad, fmt.Sprintf("%d messages queued, %d received, %d still queued", len(ids), len(got), left))
+			}
+			b := append([]string{}, bad...)
+			mu.Unlock()
+			if len(b) > 0 {
+				t.Fatalf("round %d: %s\ncase: %s", r, strings.Join(b, "; "), desc)
+			}
+			q.Purge()
+		}
+		ev.EvalN(sub, int64(rounds))
+		if nRecv > maxMsgs {
+			if ev.NonTrivial(sub, desc) {
+				ev.Sample(sub, desc)
+			}
+		}
+	})
+}
